@@ -197,7 +197,7 @@ func C06(rep *ev.Reporter, tier string) {
 			for mc := uint64(0); mc <= maxMax; mc++ {
 				for nl := 0; nl <= 3; nl++ {
 					emit(Case{ID: fmt.Sprintf("c06/%s/max%d/l%d", name, mc, nl), Rules: sets[name](), Worlds: []func() *ref.World{c06World}, WorldNames: []string{"zero"},
-						Opts: hx.RunOpts{MaxCycle: mc, ExtraListeners: nl}, ReuseDC: true})
+						Opts: hx.RunOpts{MaxCycle: mc, ExtraListeners: nl}, ReuseDC: true, Histories: nl == 0})
 				}
 			}
 		}
@@ -222,7 +222,7 @@ func C06(rep *ev.Reporter, tier string) {
 	var plainChecked int64
 	judge := func(c *Case, tr *hx.Trace, w *ref.World) []Verdict {
 		vs := c06Judge(c, tr, w)
-		if c.Opts.ExtraListeners == 0 && hx.OrderLive() { // the differential needs both runs to take the same rule order
+		if c.Opts.ExtraListeners == 0 && hx.OrderLive() && !c.InHistory { // the differential needs both runs to take the same rule order
 			prog := hx.NewProgram(c.Rules, c.Style)
 			if b, err := hx.Build(prog); err == nil {
 				o := c.Opts
